@@ -697,8 +697,41 @@ def _foreign(what):
     return PyRaise(ForeignError(what), implicit=True, where="bitstruct")
 
 
+def _single_symbolic_raw_field(fmt):
+    """the size term if the format is one raw field of symbolic size (f"r{n}"), else None.  For such a format both back
+    ends copy the first n/8 bytes (n a positive multiple of 8, enough input) - no enumeration of sizes is needed, so
+    byte fields of any length stay within one path."""
+    from .core import SFmt
+    if not isinstance(fmt, SFmt):
+        return None
+    parts = [p for p in fmt.parts if not (isinstance(p, str) and p == "")]
+    if len(parts) == 2 and parts[0] == "r" and isinstance(parts[1], SInt):
+        return parts[1]
+    return None
+
+
+def _raw_field_preconditions(I, n):
+    e = I.e
+    if e.branch(n.z % 8 != 0, likely=False):
+        raise _foreign("raw/text field size is no multiple of 8 bits")
+    if e.branch(n.z < 0, likely=False):
+        raise _foreign("negative field size")
+    if e.branch(n.z == 0, likely=False):
+        raise _foreign("zero-size field")
+
+
 def bs_pack(I, args, kwargs):
     e = I.e
+    n = _single_symbolic_raw_field(args[0])
+    if n is not None and len(args) >= 2:
+        _raw_field_preconditions(I, n)
+        v = args[1]
+        if not ops.is_bytes_like(v):
+            raise _foreign("bad value type for 'r'")
+        b = ops.as_sbytes(v)
+        if not e.branch(8 * b.ln >= n.z):
+            raise _foreign("'r' value shorter than the field")
+        return SBytes(b.arr, b.off, z3.simplify(n.z / 8))
     items = parse_fmt(args[0], I)
     vals = list(args[1:])
     total = sum(n for _, n in items)
@@ -772,6 +805,14 @@ def bs_unpack_from(I, args, kwargs):
     fmt = args[0]
     data = args[1]
     offset = args[2] if len(args) > 2 else kwargs.get("offset", 0)
+    n = _single_symbolic_raw_field(fmt)
+    if n is not None and ops.is_bytes_like(data) and (not is_sym(offset) or not e.feasible(zint(offset) != 0)) and \
+            (is_sym(offset) or offset == 0):
+        _raw_field_preconditions(I, n)
+        b = ops.as_sbytes(data)
+        if not e.branch(8 * b.ln >= n.z):
+            raise _foreign("unpack requires more bits than available")
+        return (SBytes(b.arr, b.off, z3.simplify(n.z / 8)),)
     items = parse_fmt(fmt, I)
     if is_sym(offset):
         # typically the padding computed from a symbolic bit length: a single value once the format is decided
